@@ -13,6 +13,9 @@ Every case is built through the public formulation factory as
 
 * MDF with inner MDA in {MDAJacobi, MDAGaussSeidel, MDAChain} (tolerance 1e-14),
 * IDF with normalize_constraints in {True, False} x start_at_equilibrium in {False, True},
+* parallel IDF (``n_processes`` in {2, 3}; threads in every case, processes in about one case out of six)
+  with and without start_at_equilibrium, the design point being the random current value of the design space
+  (the harness disciplines' own default inputs are 0 or the fixed-parameter defaults, i.e. another point),
 * DisciplinaryOpt when the system has no strong coupling (feed-forward listing order),
 
 and ``formulation.optimization_problem.objective/constraints .evaluate()/.jac()`` are observed at
@@ -33,8 +36,18 @@ Correspondence with the Lean model (Driver/C17.lean): design-space composition, 
 arithmetic, IDF function values and Jacobians (exact), MDF values and total derivatives (the model
 checks the exact solution and sensitivity certificates supplied by the harness; rounded).
 
+History streams (same function objects used repeatedly, as a driver does):
+
+* every array returned by ``evaluate()`` / ``jac()`` is HELD by the harness while the same function objects are
+  evaluated at the following points (in half of the cases the caller also passes the SAME input array object,
+  updated in place); at the end each held array must still contain the numbers it contained when it was
+  returned (keys ``*-returned-jacobian-overwritten`` / ``*-returned-value-overwritten``);
+* one formulation of every case is run through ``DOEScenario`` (CustomDOE on the case's points,
+  ``eval_jac=True``, ``normalize_design_space`` False in two cases out of three) and the values / gradients the
+  problem's database holds for each point are judged by the same closed forms (keys ``doe-*``).
+
 Out of scope (stated): BiLevel and other composite formulations, `differentiated_input_names_substitute`,
-IDF `n_processes > 1`, optimiser convergence.
+optimiser convergence.
 """
 
 from __future__ import annotations
@@ -62,7 +75,8 @@ TRUSTED_EXTRA = (
     "C17: the inner MDAs (C06) and the coupled derivatives (C07) are used as black boxes on the MDF side; the "
     "oracle compares their results with the exact rational solution up to 2^-30, so a non-converged MDA cannot pass",
     "C17: harness disciplines (harness/c17_disc.py) evaluate dyadic affine/quadratic maps exactly in float64",
-    "C17: BiLevel/composite formulations, differentiated_input_names_substitute and parallel IDF are not covered",
+    "C17: BiLevel/composite formulations and differentiated_input_names_substitute are not covered",
+    "C17: parallel IDF with processes (use_threading=False) relies on fork(); it is formed in about 1 case out of 6",
 )
 
 MDAS = ("MDAJacobi", "MDAGaussSeidel", "MDAChain")
@@ -670,6 +684,13 @@ def gen_case(rng: common.Rng, topo: str | None = None) -> dict[str, Any]:
         for p in pts:
             p["x"]["u"] = [rat(_dy(rng, -2, 2, 4)) for _ in range(size["u"])]
     case["points"] = pts
+    # how the functions are used: caller's input array (fresh copy per call / one array updated in place),
+    # parallel IDF (number of processes, which normalisation goes with which start, threads or processes),
+    # which formulation is run through a DOE scenario (and on which kind of design space)
+    case["xmode"] = rng.pick(["fresh", "shared"])
+    case["par"] = {"n": rng.pick([2, 2, 3]), "norm0": rng.chance(0.5), "procs": rng.chance(1 / 6)}
+    case["doe"] = {"pick": rng.randrange(12), "normalize": rng.chance(1 / 3)}
+    case["jacobi_threads"] = rng.chance(0.25)
     return case
 
 
@@ -812,6 +833,13 @@ def configs(case) -> list[dict[str, Any]]:
         cfgs.append({"form": "IDF", "norm": norm, "eq": False})
         if has_value:
             cfgs.append({"form": "IDF", "norm": norm, "eq": True})
+    # parallel IDF: the top-level discipline is an MDOParallelChain of the disciplines
+    par = case.get("par") or {"n": 2, "norm0": True, "procs": False}
+    cfgs.append({"form": "IDF", "norm": bool(par["norm0"]), "eq": False, "par": int(par["n"]), "thr": True})
+    if has_value:
+        cfgs.append({"form": "IDF", "norm": not par["norm0"], "eq": True, "par": int(par["n"]), "thr": True})
+    if par.get("procs"):
+        cfgs.append({"form": "IDF", "norm": bool(par["norm0"]), "eq": has_value, "par": 2, "thr": False})
     if is_feed_forward(case):
         cfgs.append({"form": "DisciplinaryOpt"})
     return cfgs
@@ -821,8 +849,48 @@ def cfg_key(cfg) -> str:
     if cfg["form"] == "MDF":
         return f"MDF/{cfg['mda']}" + (f"[{cfg['inner']}]" if cfg.get("inner") else "")
     if cfg["form"] == "IDF":
-        return f"IDF/norm={int(cfg['norm'])}/eq={int(cfg['eq'])}"
+        par = f"/par={cfg['par']}{'t' if cfg.get('thr', True) else 'p'}" if cfg.get("par") else ""
+        return f"IDF/norm={int(cfg['norm'])}/eq={int(cfg['eq'])}{par}"
     return cfg["form"]
+
+
+def is_process_parallel(cfg) -> bool:
+    return bool(cfg.get("par")) and not cfg.get("thr", True)
+
+
+def formulation_settings(case, cfg) -> dict[str, Any]:
+    if cfg["form"] == "MDF":
+        st = dict(MDA_SETTINGS)
+        if cfg["mda"] == "MDAChain":
+            st["inner_mda_settings"] = dict(MDA_SETTINGS)
+            if cfg.get("inner"):
+                st["inner_mda_name"] = cfg["inner"]
+        if cfg["mda"] == "MDAJacobi" and not case.get("jacobi_threads", True):
+            st["n_processes"] = 1  # sequential Jacobi sweeps (the threaded default is kept in one case out of four)
+        return {"main_mda_name": cfg["mda"], "main_mda_settings": st}
+    if cfg["form"] == "IDF":
+        settings: dict[str, Any] = {"normalize_constraints": cfg["norm"], "start_at_equilibrium": cfg["eq"]}
+        if cfg["eq"]:
+            settings["mda_chain_settings_for_start_at_equilibrium"] = {
+                **MDA_SETTINGS,
+                "inner_mda_settings": dict(MDA_SETTINGS),
+            }
+        if cfg.get("par"):
+            settings["n_processes"] = int(cfg["par"])
+            settings["use_threading"] = bool(cfg.get("thr", True))
+        return settings
+    return {}
+
+
+def add_user_functions(case, target, observables: bool = True) -> None:
+    """`add_constraint` / `add_observable` of a formulation or of a scenario (same signature)."""
+    for c in case["constraints"]:
+        names, ty = c[0], c[1]
+        a, pos = cons_fmt(c)
+        target.add_constraint(names if len(names) > 1 else names[0], constraint_type=ty, value=float(a), positive=pos)
+    if observables:
+        for names in case.get("observables", []):
+            target.add_observable(list(names))
 
 
 def make_formulation(case, cfg):
@@ -830,31 +898,11 @@ def make_formulation(case, cfg):
 
     discs = build_discs(case)
     ds = build_ds(case)
-    if cfg["form"] == "MDF":
-        st = dict(MDA_SETTINGS)
-        if cfg["mda"] == "MDAChain":
-            st["inner_mda_settings"] = dict(MDA_SETTINGS)
-            if cfg.get("inner"):
-                st["inner_mda_name"] = cfg["inner"]
-        settings = {"main_mda_name": cfg["mda"], "main_mda_settings": st}
-    elif cfg["form"] == "IDF":
-        settings = {"normalize_constraints": cfg["norm"], "start_at_equilibrium": cfg["eq"]}
-        if cfg["eq"]:
-            settings["mda_chain_settings_for_start_at_equilibrium"] = {
-                **MDA_SETTINGS,
-                "inner_mda_settings": dict(MDA_SETTINGS),
-            }
-    else:
-        settings = {}
     form = MDOFormulationFactory().create(
-        cfg["form"], disciplines=discs, objective_name=case["objective"], design_space=ds, **settings
+        cfg["form"], disciplines=discs, objective_name=case["objective"], design_space=ds,
+        **formulation_settings(case, cfg)
     )
-    for c in case["constraints"]:
-        names, ty = c[0], c[1]
-        a, pos = cons_fmt(c)
-        form.add_constraint(names if len(names) > 1 else names[0], constraint_type=ty, value=float(a), positive=pos)
-    for names in case.get("observables", []):
-        form.add_observable(list(names))
+    add_user_functions(case, form)
     return form, discs
 
 
@@ -890,8 +938,25 @@ def float_points(case) -> list[dict[str, Any]]:
     return pts
 
 
+def eval_todo(cfg, p) -> list[tuple[str, dict[str, list[float]]]]:
+    """The named points at which one formulation is observed for the case point `p`."""
+    todo = []
+    if cfg["form"] == "IDF":
+        if p["tf"] is not None:
+            todo.append(("given", {**p["xf"], **p["tf"]}))
+        if p["ystar_f"] is not None and p["kind"] in ("anchor", "arb"):
+            todo.append(("consistent", {**p["xf"], **p["ystar_f"]}))
+    else:
+        todo.append(("x", dict(p["xf"])))
+    return todo
+
+
 def observe_config(case, cfg, fpts) -> dict[str, Any]:
-    """Observable behaviour of one formulation on the case."""
+    """Observable behaviour of one formulation on the case.
+
+    The same function objects are evaluated at all the points, one after the other, and every array they
+    return is held until the end (`held_vals` / `held_jacs` are read from the held objects after the last call).
+    """
     obs: dict[str, Any] = {"cfg": cfg}
     try:
         form, discs = make_formulation(case, cfg)
@@ -910,33 +975,163 @@ def observe_config(case, cfg, fpts) -> dict[str, Any]:
         cur = pb.design_space.get_current_value(as_dict=True)
         obs["current"] = {n: _val(cur[n]) for n in names}
     evals = []
-    cpl = couplings(case)
-    for p in fpts:
-        todo = []
-        if cfg["form"] == "IDF":
-            if p["tf"] is not None:
-                todo.append(("given", {**p["xf"], **p["tf"]}))
-            if p["ystar_f"] is not None and p["kind"] in ("anchor", "arb"):
-                todo.append(("consistent", {**p["xf"], **p["ystar_f"]}))
-        else:
-            todo.append(("x", dict(p["xf"])))
-        for tag, point in todo:
+    shared = case.get("xmode") == "shared"
+    obs["xmode"] = "shared" if shared else "fresh"
+    xbuf = None  # the caller's own input array, updated in place between the calls (shared mode)
+    held = []
+    # processes: every discipline execution forks; two points are enough to see the configuration
+    pts = list(fpts[:2] if is_process_parallel(cfg) else fpts)
+    if "current" in obs:
+        # the point IDF installed itself as the multidisciplinary solution of the current design point
+        cpl = set(couplings(case))
+        pts.insert(0, {"kind": "start", "xf": {n: v for n, v in obs["current"].items() if n not in cpl},
+                       "tf": {n: v for n, v in obs["current"].items() if n in cpl}, "ystar_f": None})
+    for p in pts:
+        for tag, point in eval_todo(cfg, p):
             rec: dict[str, Any] = {"tag": tag, "kind": p["kind"], "point": point}
             try:
                 xv = point_vector(case, names, point)
+                if shared:
+                    if xbuf is None:
+                        xbuf = np.empty_like(xv)
+                    xbuf[:] = xv
                 rec["vals"] = []
                 rec["jacs"] = []
+                raw_v, raw_j = [], []
                 for f in funcs:
-                    rec["vals"].append(_val(f.evaluate(xv.copy())))
-                    rec["jacs"].append(_jac(f.jac(xv.copy()), len(rec["vals"][-1])))
+                    raw_v.append(f.evaluate(xbuf if shared else xv.copy()))
+                    rec["vals"].append(_val(raw_v[-1]))
+                    raw_j.append(f.jac(xbuf if shared else xv.copy()))
+                    rec["jacs"].append(_jac(raw_j[-1], len(rec["vals"][-1])))
                 # second evaluation at the same point: masks and adapter buffers are reused
-                v2 = _val(funcs[0].evaluate(xv.copy()))
+                v2 = _val(funcs[0].evaluate(xbuf if shared else xv.copy()))
                 rec["again"] = v2 == rec["vals"][0]
+                held.append((rec, raw_v, raw_j))
             except Exception as e:  # noqa: BLE001
                 rec["error"] = common.exc_class(e)
                 rec["error_msg"] = repr(e)[:300] + common.short_tb(e, 3)
             evals.append(rec)
+    for rec, raw_v, raw_j in held:
+        try:
+            rec["held_vals"] = [_val(v) for v in raw_v]
+            rec["held_jacs"] = [_jac(j, 0) for j in raw_j]
+        except Exception as e:  # noqa: BLE001
+            rec["held_error"] = repr(e)[:200]
     obs["evals"] = evals
+    return obs
+
+
+def doe_label(cfg, normalize: bool) -> str:
+    return f"DOE[{cfg_key(cfg)},normalize_design_space={int(normalize)}]"
+
+
+def doe_config(case):
+    """The formulation of the case that is run through a DOE scenario, or None."""
+    doe = case.get("doe")
+    if not doe:
+        return None
+    cands = [c for c in configs(case) if not is_process_parallel(c) and not c.get("eq") and expected_names(case, c["form"]) is not None]
+    if not cands:
+        return None
+    return cands[int(doe["pick"]) % len(cands)], bool(doe.get("normalize"))
+
+
+def in_bounds(case, point: dict[str, list[float]]) -> bool:
+    for v in case["ds"]:
+        if v["name"] in point:
+            for a, l, u in zip(point[v["name"]], v["lb"], v["ub"]):
+                if not (P(l) <= F(a) <= P(u)):
+                    return False
+    return True
+
+
+def observe_doe(case, cfg, normalize: bool, fpts) -> dict[str, Any]:
+    """One formulation driven by a DOE scenario: what the problem's database holds for each sample.
+
+    CustomDOE on the case's points (those inside the bounds, duplicates removed), `eval_jac=True`; with
+    `normalize_design_space=True` the samples are given in the unit cube.  The database is indexed by the
+    (unnormalized) design vector and must hold, for each sample, the value and the gradient of the objective and
+    of every constraint at that sample.
+    """
+    from gemseo.scenarios.doe_scenario import DOEScenario
+
+    obs: dict[str, Any] = {"cfg": cfg, "doe": True, "rounded": bool(normalize), "label": doe_label(cfg, normalize)}
+    try:
+        sc = DOEScenario(
+            build_discs(case), case["objective"], build_ds(case), formulation_name=cfg["form"],
+            **formulation_settings(case, cfg)
+        )
+        add_user_functions(case, sc, observables=False)
+        pb = sc.formulation.optimization_problem
+    except Exception as e:  # noqa: BLE001
+        obs["error"] = common.exc_class(e)
+        obs["error_msg"] = repr(e)[:300]
+        return obs
+    names = list(pb.design_space.variable_names)
+    obs["names"] = names
+    obs["sizes"] = [int(pb.design_space.get_size(n)) for n in names]
+    funcs = [pb.objective, *pb.constraints]
+    obs["n_funcs"] = len(funcs)
+    obs["f_types"] = [str(getattr(getattr(f, "f_type", ""), "value", getattr(f, "f_type", ""))) for f in funcs]
+    req: list[tuple[str, str, dict[str, list[float]], np.ndarray]] = []
+    for p in fpts:
+        for tag, point in eval_todo(cfg, p):
+            point = {n: point[n] for n in names}
+            if not in_bounds(case, point):
+                continue
+            xv = point_vector(case, names, point)
+            if any(np.array_equal(xv, r[3]) for r in req):
+                continue
+            req.append((tag, p["kind"], point, xv))
+    obs["n_samples"] = len(req)
+    obs["evals"] = []
+    if not req:
+        return obs
+    samples = np.array([r[3] for r in req])
+    if normalize:
+        lb = np.asarray(pb.design_space.get_lower_bounds(), dtype=float)
+        ub = np.asarray(pb.design_space.get_upper_bounds(), dtype=float)
+        samples = (samples - lb) / (ub - lb)
+    try:
+        sc.execute(algo_name="CustomDOE", samples=samples, eval_jac=True, normalize_design_space=normalize)
+        db = pb.database
+        obs["n_db"] = len(db)
+        fnames = [f.name for f in funcs]
+        for it in range(1, min(len(db), len(req)) + 1):
+            tag, kind, point, xv = req[it - 1]
+            x = np.asarray(db.get_x_vect(it), dtype=float)
+            rec: dict[str, Any] = {"tag": tag, "kind": kind, "again": True, "requested": [float(a) for a in xv],
+                                   "x": [float(a) for a in x]}
+            if x.shape != xv.shape:
+                rec["error"] = "E:shape"
+                rec["error_msg"] = f"database entry {it} has an input vector of shape {x.shape}"
+                rec["point"] = point
+                obs["evals"].append(rec)
+                continue
+            off = 0
+            rec["point"] = {}
+            for n, m in zip(names, obs["sizes"]):
+                rec["point"][n] = [float(a) for a in x[off : off + m]]
+                off += m
+            rec["vals"], rec["jacs"] = [], []
+            missing = []
+            for fn in fnames:
+                v = db.get_function_value(fn, it)
+                g = db.get_function_value(db.get_gradient_name(fn), it)
+                if v is None:
+                    missing.append(fn)
+                if g is None:
+                    missing.append(db.get_gradient_name(fn))
+                if v is not None and g is not None:
+                    rec["vals"].append(_val(v))
+                    rec["jacs"].append(_jac(g, len(rec["vals"][-1])))
+            if missing:
+                rec["error"] = "E:missing"
+                rec["error_msg"] = f"database entry {it} lacks {missing}"
+            obs["evals"].append(rec)
+    except Exception as e:  # noqa: BLE001
+        obs["error"] = common.exc_class(e)
+        obs["error_msg"] = repr(e)[:300] + common.short_tb(e, 3)
     return obs
 
 
@@ -998,11 +1193,64 @@ def idf_constraint_plan(case):
     return plan
 
 
+def obs_observables(case, obs) -> list[list[str]]:
+    """The observables attached to the observed problem (none in the DOE stream: a DOE has no observable Jacobian)."""
+    return [] if obs.get("doe") else case.get("observables", [])
+
+
+def same_numbers(now: list[float], then: list[float]) -> bool:
+    """Positive assertion: same length, every number finite and equal to the number seen when it was returned."""
+    return len(now) == len(then) and all(
+        isinstance(a, float) and isinstance(b, float) and math.isfinite(a) and a == b for a, b in zip(now, then)
+    )
+
+
+def oracle_held(form: str, where: str, rec) -> list[tuple[str, str]]:
+    """The arrays returned for a design point belong to the caller: they still hold the values / derivatives of
+    THAT point after the same functions have been evaluated at other points."""
+    bad: list[tuple[str, str]] = []
+    if "held_error" in rec:
+        return [(f"{form.lower()}-returned-array-unreadable", f"{where}: {rec['held_error']}")]
+    if "held_vals" not in rec:
+        return bad
+    for k, (now, then) in enumerate(zip(rec["held_vals"], rec["vals"])):
+        if not same_numbers(now, then):
+            bad.append((f"{form.lower()}-returned-value-overwritten",
+                        f"{where}: function {k}: the returned value was {then}; after the evaluations at the following points the same array holds {now}"))
+            break
+    for k, (now, then) in enumerate(zip(rec["held_jacs"], rec["jacs"])):
+        if not (len(now) == len(then) and all(same_numbers(a, b) for a, b in zip(now, then))):
+            bad.append((f"{form.lower()}-returned-jacobian-overwritten",
+                        f"{where}: function {k}: the returned Jacobian was {then}; after the evaluations at the following points the same array holds {now}"))
+            break
+    return bad
+
+
+def oracle_doe(case, obs) -> list[tuple[str, str]]:
+    """The database of a DOE holds, for each requested sample, the values and gradients at that sample."""
+    bad: list[tuple[str, str]] = []
+    ck = obs["label"]
+    if "error" in obs and "names" in obs:
+        return [("doe-raises", f"{ck}: the DOE scenario raised {obs['error']} {obs.get('error_msg')}")]
+    if "error" not in obs:
+        if obs.get("n_db") != obs.get("n_samples") and obs.get("n_samples"):
+            bad.append(("doe-database-size", f"{ck}: {obs.get('n_db')} database entries for {obs['n_samples']} distinct samples"))
+        for rec in obs["evals"]:
+            if "x" in rec and len(rec["x"]) == len(rec["requested"]):
+                # the DOE library maps the samples to the unit cube and back: the evaluated point is the requested
+                # one up to that round trip (the expectations below are computed at the point the database reports)
+                if not all(near(a, F(r), EBOUND) for a, r in zip(rec["x"], rec["requested"])):
+                    bad.append(("doe-sample-point", f"{ck}: database entry at {rec['x']} instead of the requested sample {rec['requested']}"))
+    bad += [("doe-" + k, m) for k, m in oracle_config(case, obs)]
+    return bad
+
+
 def oracle_config(case, obs) -> list[tuple[str, str]]:
     bad: list[tuple[str, str]] = []
     cfg = obs["cfg"]
     form = cfg["form"]
-    ck = cfg_key(cfg)
+    ck = obs.get("label") or cfg_key(cfg)
+    observables = obs_observables(case, obs)
     exp_names = expected_names(case, form)
     if exp_names is None:
         if "error" not in obs:
@@ -1022,7 +1270,7 @@ def oracle_config(case, obs) -> list[tuple[str, str]]:
     names = exp_names
     n_user = len(case["constraints"])
     plan = idf_constraint_plan(case) if form == "IDF" else [("function", c) for c in case["constraints"]]
-    n_obs = len(case.get("observables", []))
+    n_obs = len(observables)
     if obs["n_funcs"] != 1 + len(plan) + n_obs:
         bad.append((f"{form.lower()}-constraint-count", f"{ck}: {obs['n_funcs'] - 1 - n_obs} constraints instead of {len(plan)} ({n_user} user)"))
         return bad
@@ -1041,12 +1289,13 @@ def oracle_config(case, obs) -> list[tuple[str, str]]:
         point = {n: [F(a) for a in v] for n, v in rec["point"].items()}
         if not rec.get("again", False):
             bad.append((f"{form.lower()}-not-repeatable", f"{where}: a second evaluation at the same point gives another value"))
+        bad += oracle_held(form, where, rec)
         if form == "IDF":
-            exact = is_dyadic_small(rec["point"])
+            exact = is_dyadic_small(rec["point"]) and not obs.get("rounded")
             # objective and user functions
             specs = [("objective", [[case["objective"]], "obj"])] + [
                 (("consistency" if kind == "consistency" else "constraint"), what) for kind, what in plan
-            ] + [("observable", [ns, "obs"]) for ns in case.get("observables", [])]
+            ] + [("observable", [ns, "obs"]) for ns in observables]
             for k, (kind, what) in enumerate(specs):
                 if kind == "consistency":
                     ev, ej = expect_consistency(case, what, names, point, cfg["norm"])
@@ -1073,6 +1322,10 @@ def oracle_config(case, obs) -> list[tuple[str, str]]:
                     elif rec["tag"] == "consistent" or rec["kind"] == "anchor":
                         if not all(isinstance(a, float) and math.isfinite(a) and abs(F(a)) <= EBOUND for a in rec["vals"][k]):
                             bad.append(("idf-consistency-zero", f"{where}: consistency constraint {rec['vals'][k]} does not vanish at the multidisciplinary solution"))
+                    elif rec["kind"] == "start":
+                        # the couplings come from an MDA converged to 1e-14: residual within the MDA bound
+                        if not all(isinstance(a, float) and math.isfinite(a) and abs(F(a)) <= BOUND for a in rec["vals"][k]):
+                            bad.append(("idf-equilibrium-start-not-consistent", f"{where}: consistency constraint {rec['vals'][k]} does not vanish at the start point installed by start_at_equilibrium"))
             if rec["kind"] == "perturbed":
                 # exactly one coupling component differs from the solution: some consistency constraint is non-zero
                 cons_vals = [a for k, (kind, _) in enumerate(specs) if kind == "consistency" for a in rec["vals"][k]]
@@ -1084,7 +1337,7 @@ def oracle_config(case, obs) -> list[tuple[str, str]]:
             if sol is None:
                 continue
             specs = [("objective", [[case["objective"]], "obj"])] + [("constraint", c) for c in case["constraints"]]
-            specs += [("observable", [ns, "obs"]) for ns in case.get("observables", [])]
+            specs += [("observable", [ns, "obs"]) for ns in observables]
             # DisciplinaryOpt on a feed-forward system and MDF with MDAChain on a system without strong coupling
             # involve no fixed-point iteration, but the chain rule / coupled adjoint go through a linear solve
             for k, (kind, what) in enumerate(specs):
@@ -1095,7 +1348,7 @@ def oracle_config(case, obs) -> list[tuple[str, str]]:
                 m = cmp_mat(rec["jacs"][k], ej, BOUND)
                 if m:
                     bad.append((f"{form.lower()}-{kind}-jac", f"{where}: {kind} {k - 1 if k else ''} total derivative {m}"))
-    if form == "IDF" and cfg.get("eq"):
+    if form == "IDF" and cfg.get("eq") and not obs.get("doe"):
         # start_at_equilibrium: the couplings' current values are the multidisciplinary solution at the current x
         cur = obs.get("current")
         if cur is None:
@@ -1297,7 +1550,7 @@ def model_lines_for_config(case, obs) -> list[tuple[str, Any]]:
         a, pos = cons_fmt(c)
         if len(c) > 2:
             fmt_tok[len(funcs) - 1] = f" a={rat(a)} pos={int(pos)}"
-    for ns in case.get("observables", []):
+    for ns in obs_observables(case, obs):
         funcs.append(("f", ",".join(ns)))
     udn = used_design_names(case)
     if obs.get("n_funcs") != len(funcs):
@@ -1311,7 +1564,7 @@ def model_lines_for_config(case, obs) -> list[tuple[str, Any]]:
         if form == "IDF":
             for k, (kind, what) in enumerate(funcs):
                 line = f"eval idf {int(cfg['norm'])} {kind} {what} x={_rl(xv)}" + fmt_tok.get(k, "")
-                out.append((line, ("eval", rec, k, is_dyadic_small(rec["point"]), False)))
+                out.append((line, ("eval", rec, k, is_dyadic_small(rec["point"]) and not obs.get("rounded"), False)))
         else:
             x = {n: [F(a) for a in rec["point"][n]] for n in udn}
             sol = exact_mda(case, x)
@@ -1435,6 +1688,11 @@ def check_one(case, rng_mask: common.Rng | None, only: list[str] | None = None):
         obs_by_key[ck] = obs
         bad += oracle_config(case, obs)
     bad += oracle_cross(case, obs_by_key)
+    doe = doe_config(case)
+    if doe is not None and (only is None or "DOE" in only):
+        obs = observe_doe(case, doe[0], doe[1], fpts)
+        obs_by_key[obs["label"]] = obs
+        bad += oracle_doe(case, obs)
     if rng_mask is not None:
         cfg = {"form": "IDF", "norm": False, "eq": False}
         if expected_names(case, "IDF") is not None:
@@ -1534,9 +1792,22 @@ def load_corpus() -> list[tuple[str, dict[str, Any]]]:
 
 def configs_of_key(msg: str) -> list[str] | None:
     """The formulation configurations named at the start of an oracle message (to focus the shrink)."""
+    if msg.startswith("DOE["):
+        return ["DOE"]
     head = msg.split(":")[0].split(" at ")[0]
     ks = [k.strip() for k in head.split(" vs ")]
     return ks if all(k.startswith(("MDF", "IDF", "Disc")) for k in ks) else None
+
+
+def starts_away_from_defaults(case) -> bool:
+    """The current value of some design variable differs from the default input value of a discipline reading it."""
+    for v in case["ds"]:
+        if v["value"] is None or v["name"] in couplings(case):
+            continue
+        for d in case["discs"]:
+            if v["name"] in in_sizes(d) and [P(a) for a in v["value"]] != default_of(d, v["name"]):
+                return True
+    return False
 
 
 def run_case(res: Result, case, rng_mask, pending: list | None, origin: str) -> None:
@@ -1558,9 +1829,19 @@ def run_case(res: Result, case, rng_mask, pending: list | None, origin: str) -> 
         res.count("unused-design-variable")
     if any(d.get("defaults") for d in case["discs"]):
         res.count("fixed-parameter")
+    res.count(f"caller-input-array={case.get('xmode', 'fresh')}")
     for ck, obs in obs_by_key.items():
+        if obs.get("doe"):
+            res.count(f"doe-cfg={cfg_key(obs['cfg'])}")
+            res.count(f"doe-normalize_design_space={int(obs.get('rounded', False))}")
+            res.count("doe-samples", obs.get("n_samples", 0))
+            res.count("doe-gradients-read-from-database", sum(len(r.get("jacs", [])) for r in obs.get("evals", [])))
+            continue
         res.count(f"cfg={ck}")
         res.count("function-evaluations", sum(len(r.get("vals", [])) for r in obs.get("evals", [])))
+        res.count("arrays-held-across-calls", sum(len(r.get("held_vals", [])) + len(r.get("held_jacs", [])) for r in obs.get("evals", [])))
+        if obs["cfg"].get("par") and obs["cfg"].get("eq") and "current" in obs:
+            res.count("parallel-idf-equilibrium-start-away-from-discipline-defaults" if starts_away_from_defaults(case) else "parallel-idf-equilibrium-start-at-discipline-defaults")
     if len(cpl) >= 1 and sum(v["size"] for v in case["ds"]) >= 3:
         res.nontrivial(json.dumps(case, sort_keys=True, default=str))
     res.sample({"topo": case["topo"], "ds": [f"{v['name']}:{v['size']}" for v in case["ds"]], "objective": case["objective"],
@@ -1787,13 +2068,17 @@ def run(ctx) -> Result:
     res.rule = (
         "random dyadic coupled systems (2-3 disciplines; strong 2-cycles, 3-rings, full, strong+weak, feed-forward; sizes 1-3; "
         "scrambled design-space order); a case is non-trivial when it has >= 1 coupling and a design space of dimension >= 3; "
-        "distinct by full case content. Every case is evaluated under 3 MDF, 2-4 IDF (+ DisciplinaryOpt) configurations at 3-4 points."
+        "distinct by full case content. Every case is evaluated under 4 MDF, 2-4 sequential IDF, 1-3 parallel IDF (+ DisciplinaryOpt) "
+        "configurations at 3-4 points on the same function objects (every returned array held until the last call), and one of "
+        "these formulations is run through a DOE scenario with eval_jac whose database is read back."
     )
     res.assumptions = [
         "coupling equations are affine with max-norm of the coupling matrix <= 1/2 (well-posed, contractive); objective/constraints affine or quadratic",
         "MDA tolerance 1e-14; MDF / DisciplinaryOpt values and derivatives compared with the exact rational solution up to 2^-30 (relative to max(1,|exact|))",
         "IDF compared exactly at dyadic points (power-of-two normalisation scales), up to 2^-40 otherwise",
-        "self-coupled disciplines, BiLevel, differentiated_input_names_substitute and parallel IDF are outside the generated scope",
+        "self-coupled disciplines, BiLevel and differentiated_input_names_substitute are outside the generated scope",
+        "parallel IDF: fixed (non-design) inputs are private to one discipline, so the merged defaults of the MDOParallelChain are the disciplines' own defaults",
+        "DOE stream: only the case points inside the bounds are sampled; with normalize_design_space=True values and gradients are compared up to 2^-40 (normalisation round trip)",
         "mask/unmask round trip is asserted only for masking names listed in the order of the reference names (the formulations only form such calls); other orders are probed against the model",
     ]
     rng = ctx.rng
